@@ -33,10 +33,22 @@ mod kmeans_noshrink {
     }
 }
 
+/// Seeds handed to linfa's rngs: a third of them are boundary values of the seed types (0, 1, 2, u32::MAX,
+/// u64::MAX - 1, u64::MAX) — a special-cased seed is a classic way to lose reproducibility for one value only.
+pub const BOUNDARY_SEEDS: [u64; 6] = [0, 1, 2, u32::MAX as u64, u64::MAX - 1, u64::MAX];
+pub fn seed_strategy() -> impl Strategy<Value = u64> {
+    prop_oneof![
+        2 => any::<u64>(),
+        1 => proptest::sample::select(BOUNDARY_SEEDS.to_vec()),
+    ]
+}
+
 macro_rules! subs {
     ($( ($name:literal, $m:ident, $quick:expr, $thorough:expr, $chunks:expr) ),* $(,)?) => {
         pub fn child_main(spec: &str) -> ! {
-            driver::child_main(spec, &[ $( ($name, child_entry::<$m::Cfg>) ),* , ("literal", child_entry::<explicit::Cfg>), ("thresholds", child_entry::<kmeans::Cfg>) ])
+            driver::child_main(spec, &[ $( ($name, child_entry::<$m::Cfg>) ),* , ("literal", child_entry::<explicit::Cfg>), ("thresholds", child_entry::<kmeans::Cfg>),
+                ("boundary_seeds_kmeans", child_entry::<kmeans::Cfg>), ("boundary_seeds_linear", child_entry::<linear::Cfg>),
+                ("boundary_seeds_reduction", child_entry::<reduction::Cfg>), ("boundary_seeds_preprocess", child_entry::<preprocess::Cfg>) ])
         }
         fn all_subs() -> Vec<Box<dyn vengine::SubCheck>> {
             vec![ $(
@@ -92,9 +104,30 @@ fn thresholds_sub() -> Box<dyn vengine::SubCheck> {
     .chunks(8)
 }
 
+macro_rules! fixed_sub {
+    ($name:literal, $m:ident, $cases:path) => {
+        vengine::enum_sub(
+            $name,
+            |t: Tier| {
+                $cases()
+                    .into_iter()
+                    .enumerate()
+                    .map(|(i, est)| Case { est, rep_pool: (i % 6) as u8, children: t.pick(3u8, 6u8) })
+                    .collect::<Vec<_>>()
+            },
+            |c: &Case<$m::Cfg>, obs: &mut vengine::Obs| judge($name, c, obs),
+        )
+        .chunks(6) as Box<dyn vengine::SubCheck>
+    };
+}
+
 pub fn property() -> Property {
     let mut subs = all_subs();
     subs.push(thresholds_sub());
+    subs.push(fixed_sub!("boundary_seeds_kmeans", kmeans, kmeans::boundary_seed_cases));
+    subs.push(fixed_sub!("boundary_seeds_reduction", reduction, reduction::boundary_seed_cases));
+    subs.push(fixed_sub!("boundary_seeds_linear", linear, linear::boundary_seed_cases));
+    subs.push(fixed_sub!("boundary_seeds_preprocess", preprocess, preprocess::boundary_seed_cases));
     subs.push(literal_sub());
     Property {
         id: "C20",
@@ -121,6 +154,8 @@ pub fn property() -> Property {
             "not generated for liveness reasons (nothing to do with determinism): Tweedie powers 1,2,3 and fits without intercept (the L-BFGS line search does not terminate on some inputs), SVR with the polynomial kernel (10^7 iteration cap), SVM shrinking (panics, property C13)".into(),
             "the six hash-order findings of this check are fixed in /repo, so every tree / naive-Bayes / hierarchical class is enforced; the class-named signatures (nondet:tree:exact-label-tie, ...:hash-ordered-impurity-sum:*) only name the generator class in which a difference was seen".into(),
             "tree cases use per-class weights 1 + c/1024 (exact f32 totals) or, in half of the cases, real-valued non-dyadic f32 sample weights through with_weights (inexact class totals: any hash-ordered sum over classes shows); isotonic regression gets real-valued weights in every other case".into(),
+            "rng seeds: a third of the generated seeds are boundary values {0,1,2,u32::MAX,u64::MAX-1,u64::MAX}; in addition every boundary seed goes through K-means, the randomly initialised GMM, FastICA (random_state = seed as usize), both random projections, FTRL, shuffle and bootstrap in every run (enum sub-checks boundary_seeds_*)".into(),
+            "near ties: a tree class whose leaf holds 3..5 classes with weighted totals 1, 1+s, 1+2s, ... (s in 3e-7..1.2e-6 relative), Gaussian NB queries 1e-9..1e-5 off the exact tie, multinomial NB classes differing in one count out of thousands; the oracle is unchanged (bit identity), these classes only make tolerance-based tie handling visible".into(),
             "size-threshold strata: k in {101,128} components (GMM by k-means / random init / builder defaults, K-means Random / ++; 8 fixed cases in every run plus ~1/6 of the random k-means cases; GMM with max 3 EM steps, tolerance 1e6, reg_covar 1e-2, one restart), > 100 hierarchical clusters, n in {2^k-1, 2^k, 2^k+1} for k-means, 65..70 feature columns for decompositions and numeric transformers".into(),
             format!("tree impurity differences are recognised as 'rounding of a reordered f32 sum' only below {:e}", tree_bayes::F32_REORDER_GAP),
             "Labels::labels()/one_vs_all() (order of a returned Vec follows a HashSet) are dataset utilities, not estimators, and are not asserted".into(),
